@@ -6,7 +6,9 @@ from gen import ctable, reqtext, cdump
 PROOF_FILE = "C09"
 LEVEL = "proof"
 RULE = ("pairs of requirement strings (A, B) per system (Default, NPM, Cargo, Go): grammar-directed with small numbers so that "
-        "bounds collide, partial versions, wildcards, prerelease bounds, ||-lists, hyphen ranges, 5% mutated; ~20 probe versions "
+        "bounds collide, partial versions, wildcards, prerelease bounds, ||-lists, hyphen ranges, 5% mutated; 30% of the pairs are "
+        "built to share a lower or an upper end point with every open/closed combination (nested, overlapping, touching, also as "
+        "||-alternatives) and the shared points are always probed; ~20 probe versions "
         "per pair = every bound of A and B, its predecessor/successor in each component, its prerelease neighbours, random "
         "versions. Go computes A, B, A∪B, A∩B, B∪A, B∩A (fresh operands each time), Empty flags, and membership of every probe "
         "under MatchVersion and under prerelease-inclusive matching; the extracted model computes the same from the same "
